@@ -37,36 +37,51 @@ def main():
     sys.path.insert(0, payload["root"])
     res = {"ok": True}
     try:
+        import proto
         pkg = importlib.import_module(payload["package"])
         res["top_all"] = sorted(getattr(pkg, "__all__", []))
-        types = importlib.import_module(payload["package"] + ".types")
-        res["types_all"] = sorted(getattr(types, "__all__", []))
-        found = []
-        seen = set()
-        for name in res["types_all"]:
-            val = getattr(types, name)
-            import proto
-            if inspect.isclass(val) and (issubclass(val, proto.Message) or issubclass(val, proto.Enum)) and id(val) not in seen:
-                seen.add(id(val))
-                found.append({"path": name, "kind": "enum" if issubclass(val, proto.Enum) else "message",
-                              "proto": full_name(val, name)})
-                walk_types(val, name + ".", seen, found)
-        res["types"] = found
-        services = {}
-        sdir = os.path.join(os.path.dirname(pkg.__file__), "services")
-        if os.path.isdir(sdir):
-            for m in sorted(os.listdir(sdir)):
-                if not os.path.isdir(os.path.join(sdir, m)) or m.startswith("__"):
-                    continue
-                mod = importlib.import_module(f"{payload['package']}.services.{m}")
-                importlib.import_module(f"{payload['package']}.services.{m}.transports")
-                classes = sorted(getattr(mod, "__all__", []))
-                attrs = {}
-                for c in classes:
-                    cls = getattr(mod, c)
-                    attrs[c] = sorted(n for n in dir(cls) if not n.startswith("__") and callable(getattr(cls, n, None)))
-                services[m] = {"classes": classes, "attrs": attrs}
-        res["services"] = services
+        base = os.path.dirname(pkg.__file__)
+        # the root package and every proto sub-package below it (a directory holding types/ or services/)
+        subs = []
+        for dirpath, dirnames, _ in os.walk(base):
+            dirnames[:] = [d for d in dirnames if not d.startswith("__")]
+            if os.path.basename(dirpath) in ("types", "services", "transports") or "/services/" in dirpath + "/":
+                continue
+            if os.path.isdir(os.path.join(dirpath, "types")) or os.path.isdir(os.path.join(dirpath, "services")):
+                rel = os.path.relpath(dirpath, base)
+                subs.append("" if rel == "." else "." + rel.replace(os.sep, "."))
+        res["subpackages"] = sorted(subs)
+        found, seen, types_all, services = [], set(), [], {}
+        for sub in sorted(subs):
+            p = payload["package"] + sub
+            importlib.import_module(p)
+            if os.path.isdir(os.path.join(base, *sub.strip(".").split("."), "types") if sub else os.path.join(base, "types")):
+                types = importlib.import_module(p + ".types")
+                names = sorted(getattr(types, "__all__", []))
+                types_all += [sub.strip(".") + ("." if sub else "") + n for n in names]
+                for name in names:
+                    val = getattr(types, name)
+                    if inspect.isclass(val) and (issubclass(val, proto.Message) or issubclass(val, proto.Enum)) and id(val) not in seen:
+                        seen.add(id(val))
+                        found.append({"path": name, "sub": sub.strip("."), "kind": "enum" if issubclass(val, proto.Enum) else "message",
+                                      "proto": full_name(val, name)})
+                        walk_types(val, name + ".", seen, found)
+            sdir = os.path.join(base, *sub.strip(".").split("."), "services") if sub else os.path.join(base, "services")
+            if os.path.isdir(sdir):
+                for m in sorted(os.listdir(sdir)):
+                    if not os.path.isdir(os.path.join(sdir, m)) or m.startswith("__"):
+                        continue
+                    mod = importlib.import_module(f"{p}.services.{m}")
+                    importlib.import_module(f"{p}.services.{m}.transports")
+                    classes = sorted(getattr(mod, "__all__", []))
+                    attrs = {}
+                    for c in classes:
+                        cls = getattr(mod, c)
+                        attrs[c] = sorted(n for n in dir(cls) if not n.startswith("__") and callable(getattr(cls, n, None)))
+                    if m in services:
+                        raise RuntimeError(f"two service modules named {m}")
+                    services[m] = {"classes": classes, "attrs": attrs, "sub": sub.strip(".")}
+        res["types"], res["types_all"], res["services"] = found, types_all, services
     except Exception as e:  # noqa
         res = {"ok": False, "error": f"{type(e).__name__}: {e}", "traceback": traceback.format_exc()[-1500:]}
     print()
